@@ -196,6 +196,17 @@ def run_case(case, ctx):
         compare(ctx, rr, lambda x: pt_op(op, ra(x), rb(x)), ref.merged_breaks(ra.breaks(), rb.breaks()), ra.p + rb.p, exact,
                 f"arith:value:{op}:{feat}:{dims}", f"A {op} B")
         cv.lib_eval_matches(ctx, R, rr, exact, f"arith:{op}", n=3)
+        if op == "matmul" and exact and not rational and ra.dim > 1 and 2 * ra.p + rb.p <= 5 and len(ref.merged_breaks(ra.breaks(), rb.breaks())) <= 4:
+            # composition: the scalar-valued curve A @ B (whatever container its control points ended up in) as an operand
+            # of the next product, on either side
+            ctx.count("compositions")
+            for nm, f2, w2 in (("A*(A@B)", lambda: A * R, lambda x: tuple(c * rr(x)[0] for c in ra(x))), ("(A@B)*A", lambda: R * A, lambda x: tuple(rr(x)[0] * c for c in ra(x)))):
+                o2 = call(f2)
+                if not ctx.check(o2.ok, f"arith:composition:raises:{o2.exc_name}", f"{nm} raised {o2.brief()}"):
+                    continue
+                r2 = cv.state_rc(ctx, o2.value, nm)
+                if r2 is not None:
+                    compare(ctx, r2, w2, ref.merged_breaks(ra.breaks(), rb.breaks()), 2 * ra.p + rb.p, exact, "arith:composition:value", nm)
         return
     # scalar / matrix operators
     s = lib.num(F(case["s"]), nt)
